@@ -529,8 +529,8 @@ package jmespath
 //@   ensures {C09} [to-string: json-text-that-decodes-back] name == "to_string" && specArgsOK(theFunctionTable()["to_string"].arguments, arguments) ==> (!isStr(arguments[0]) ==> isStr(result) && specDecodesTo(strOf(result), arguments[0]))
 //@   ensures {C09} [to-number: to-number] name == "to_number" && specArgsOK(theFunctionTable()["to_number"].arguments, arguments) ==> (same(result, specToNumber(arguments[0])))
 //@   ensures {C09} [not-null: first-non-null] name == "not_null" && specArgsOK(theFunctionTable()["not_null"].arguments, arguments) ==> (same(result, specNotNullFrom(arguments, 0)))
-//@   ensures {C09} [avg: mean-of-the-left-to-right-sum] name == "avg" && specArgsOK(theFunctionTable()["avg"].arguments, arguments) ==> (same(result, specAvg(arrOf(arguments[0]))))
-//@   ensures {C09} [sum: left-to-right-sum] name == "sum" && specArgsOK(theFunctionTable()["sum"].arguments, arguments) ==> (isNum(result) && same(numOf(result), specSum(arrOf(arguments[0]))))
+//@   ensures {C09} [avg: mean-of-the-left-to-right-sum] name == "avg" && specArgsOK(theFunctionTable()["avg"].arguments, arguments) && err == nil ==> (same(result, specAvg(arrOf(arguments[0]))))
+//@   ensures {C09} [sum: left-to-right-sum] name == "sum" && specArgsOK(theFunctionTable()["sum"].arguments, arguments) && err == nil ==> (isNum(result) && same(numOf(result), specSum(arrOf(arguments[0]))))
 //@   ensures {C09} [contains: substring] name == "contains" && specArgsOK(theFunctionTable()["contains"].arguments, arguments) ==> (isStr(arguments[0]) ==> (boolOf(result) <==> (isStr(arguments[1]) && specStrContains(strOf(arguments[0]), strOf(arguments[1])))))
 //@   ensures {C09} [contains: some-element-is-deeply-equal] name == "contains" && specArgsOK(theFunctionTable()["contains"].arguments, arguments) ==> (isArr(arguments[0]) ==> (boolOf(result) <==> specContainsFrom(arrOf(arguments[0]), 0, arguments[1])))
 //@   ensures {C09} [keys: every-member-name-once] name == "keys" && specArgsOK(theFunctionTable()["keys"].arguments, arguments) ==> (same(arrOf(result), specKeysFrom(objOf(arguments[0]), 0, specEmptyList())))
@@ -747,11 +747,12 @@ package jmespath
 //@   requires len(arguments) == 1 && allNum(arguments[0]) && specJSONVal(arguments[0])
 //@   assigns \nothing
 //@   ensures {C17} [not-a-syntax-error] !isSyntaxError(err)
-//@   ensures {C16,C09} [null-for-empty] err == nil && (arrLen(arguments[0]) == 0 ==> isNil(result))
-//@   assumes [moderate-magnitude] isNum(result) ==> specFinite(numOf(result))
-//@   ensures {C16} [json] specJSONVal(result)
-//@   ensures {C09} [mean-of-the-left-to-right-sum] same(result, specAvg(arrOf(arguments[0])))
+//@   ensures {C16,C09} [null-for-empty] arrLen(arguments[0]) == 0 ==> err == nil && isNil(result)
+//@   ensures {C16} [json] err == nil ==> specJSONVal(result)
+//@   ensures {C16,C09} [error-exactly-on-overflow] err != nil <==> (arrLen(arguments[0]) > 0 && !specFinite(specSum(arrOf(arguments[0]))))
+//@   ensures {C09} [mean-of-the-left-to-right-sum] err == nil ==> same(result, specAvg(arrOf(arguments[0])))
 //@   loop 1 invariant 0 <= \k && \k <= arrLen(arguments[0])
+//@   loop 1 invariant {C16,C09} [never-nan] !isNaN(numerator)
 //@   loop 1 invariant {C09} [sum-so-far] same(specSumFrom(args, \k, numerator), specSum(args))
 //@   loop 1 decreases arrLen(arguments[0]) - \k
 
@@ -760,10 +761,11 @@ package jmespath
 //@   requires len(arguments) == 1 && allNum(arguments[0]) && specJSONVal(arguments[0])
 //@   assigns \nothing
 //@   ensures {C17} [not-a-syntax-error] !isSyntaxError(err)
-//@   assumes [moderate-magnitude] isNum(result) ==> specFinite(numOf(result))
-//@   ensures {C16} [json] err == nil && isNum(result) && specJSONVal(result)
-//@   ensures {C09} [left-to-right-sum] isNum(result) && same(numOf(result), specSum(arrOf(arguments[0])))
+//@   ensures {C16} [json] err == nil ==> isNum(result) && specJSONVal(result)
+//@   ensures {C16,C09} [error-exactly-on-overflow] err != nil <==> !specFinite(specSum(arrOf(arguments[0])))
+//@   ensures {C09} [left-to-right-sum] err == nil ==> isNum(result) && same(numOf(result), specSum(arrOf(arguments[0])))
 //@   loop 1 invariant 0 <= \k && \k <= len(items)
+//@   loop 1 invariant {C16,C09} [never-nan] !isNaN(sum)
 //@   loop 1 invariant {C09} [sum-so-far] same(specSumFrom(arrOf(arguments[0]), \k, sum), specSum(arrOf(arguments[0])))
 //@   loop 1 decreases len(items) - \k
 
@@ -1306,8 +1308,7 @@ package jmespath
 //@   requires len(arguments) == 1 && allNum(arguments[0]) && specGoVal(arguments[0])
 //@   assigns \nothing
 //@   ensures {C18} [not-a-syntax-error] !isSyntaxError(err)
-//@   assumes [moderate-magnitude] isNum(result) ==> anyNumber(numOf(result))
-//@   ensures {C18} [json] specGoVal(result)
+//@   ensures {C18} [json] err == nil ==> specGoVal(result)
 //@   loop 1 invariant {C18} 0 <= \k && \k <= arrLen(arguments[0])
 //@   loop 1 decreases arrLen(arguments[0]) - \k
 
@@ -1316,7 +1317,6 @@ package jmespath
 //@   requires len(arguments) == 1 && allNum(arguments[0]) && specGoVal(arguments[0])
 //@   assigns \nothing
 //@   ensures {C18} [not-a-syntax-error] !isSyntaxError(err)
-//@   assumes [moderate-magnitude] isNum(result) ==> anyNumber(numOf(result))
 //@   ensures {C18} [json] err == nil ==> isNum(result) && specGoVal(result)
 //@   loop 1 invariant {C18} 0 <= \k && \k <= len(items)
 //@   loop 1 decreases len(items) - \k
